@@ -268,6 +268,7 @@ func runC11(c *Ctx) {
 	ruleXtextDecodesEveryPlus(c)
 	rulePathBytesPassThrough(c)
 	ruleParserCursor(c)
+	ruleASCIIFold(c)
 	ruleNoPartialLine(c) // "exactly as sent, or refused": the buffered beginning of an over-long line is never parsed as the command
 
 	R.Rule("R-enum-whitelist", "E3 edge-feasibility", "BODY, RET, NOTIFY elements and the ORCPT address type are accepted only when equal to a declared constant", 6)
